@@ -347,6 +347,7 @@ def probe_all():
     rows = []
     inner_site = {"any": ("any", "none"), "struct": ("struct", "none"), "inline": ("inline", "none"),
                   "coll": ("array", "number"), "wrap": ("anyOf", "coll")}
+    done_all = {}
     for op in S.FIELD_OPS:
         # top-level site of the operation
         if op in ("construct", "deserialize", "serialize", "fastSerialize"):
@@ -365,13 +366,20 @@ def probe_all():
             if "unbuildable" in impl:
                 continue
             node = [] if op in ("setattr", "fieldSerialize") else ["f"]
+            chain = S.site_chain(impl.get("shape") or {"s": "scalar"}, node)
+            if (kind, cat) not in [(k, c) for d, k, c in chain if d == len(node)]:
+                continue      # for this operation the witness does not exercise that site (value-directed shape)
             r = probe_row(op, kind, cat, impl, node)
             paths = [list(q) for q in impl.get("shared_paths", [])] if impl.get("ok") else []
             any_shared = any(q[:len(node)] == node for q in paths)
             if kind in S.WRAP_KINDS and cat in inner_site:
                 # a wrapper consumes no path step: aliasing caused by the option itself belongs to the option's row
                 inner = done.get(inner_site[cat])
-                if inner is not None and (inner["retainsArg"] or inner["returns"] in ("aliasInternal", "aliasArg")):
+                if (inner is None or inner["returns"] == "raises") and op == "fastSerialize":
+                    # fast serialization delegates to <field>.serialize: same behaviour where the check at
+                    # create_serializer time does not look
+                    inner = done_all.get("fieldSerialize", {}).get(inner_site[cat])
+                if inner is not None and inner.get("_node_shared"):
                     if r["retainsArg"] or r["returns"] in ("aliasInternal", "aliasArg"):
                         r["retainsArg"] = False
                         if r["returns"] in ("aliasInternal", "aliasArg"):
@@ -382,8 +390,10 @@ def probe_all():
                     # copies generically instead of delegating to the option
                     r["deep"] = True
             r["_any_shared"] = any_shared
+            r["_node_shared"] = node in paths
             done[(kind, cat)] = r
             rows.append((op, kind, cat, r))
+        done_all[op] = done
     # class- and document-level operations
     for c in S.directed_cases():
         op = c["op"]
